@@ -350,7 +350,7 @@ def prop_moisture(ch, ctx):
     if sufficient and dry > 0:
         achieved = r1[w] * MW[w] / float((r1 * MW).sum())
         F_mass0 = float((ret0 * MW).sum())
-        tol = 1e-12 + 1e-13 * F_mass0 / dry
+        tol = 1e-13 + 1e-14 * F_mass0 / dry          # dry mass is F_mass - MW*water in the code: cancellation
         ctx.metric_max('moisture:fraction_err/tol', abs(achieved - mc) / tol)
         ctx.cell('moisture:reached')
         if not abs(achieved - mc) <= tol:
@@ -762,7 +762,8 @@ def prop_material_balance(ch, ctx):
         d = chosen[rowperm[j]]
         off = sum(var[j][i] for i in chosen if i != d)
         offrow = sum(var[jj][d] for jj in range(k) if jj != j)
-        var[j][d] = 2.0 * max(off, offrow, 0.5) + ch.choice(f'var{j}.diag', [0.0, 1.0, 10.0])
+        var[j][d] = (ch.choice(f'var{j}.dom', [1.05, 2.0, 10.0]) * max(off, offrow, 0.5)
+                     + ch.choice(f'var{j}.diag', [0.0, 1.0, 10.0]))
     x_true = np.array([ch.logfloat(f'x{j}', -2, 2) for j in range(k)], float)
     n_ci = ch.int('n_const_in', 0, 2)
     cin = [np.array(ch.flows(f'cin{j}.flow', n, -2, 2), float) for j in range(n_ci)]
@@ -811,12 +812,12 @@ def prop_material_balance(ch, ctx):
 
 
 PROPS = {
-    'mix_split': (prop_mix_split, 500, 20000),
-    'moisture': (prop_moisture, 900, 30000),
-    'partition': (prop_partition, 1400, 50000),
-    'lle': (prop_lle, 320, 10000),
-    'vle': (prop_vle, 320, 10000),
-    'phase_split': (prop_phase_split, 300, 10000),
-    'chemical_splits': (prop_chemical_splits, 300, 10000),
-    'material_balance': (prop_material_balance, 400, 15000),
+    'mix_split': (prop_mix_split, 800, 20000),
+    'moisture': (prop_moisture, 1500, 30000),
+    'partition': (prop_partition, 2400, 50000),
+    'lle': (prop_lle, 640, 10000),
+    'vle': (prop_vle, 640, 10000),
+    'phase_split': (prop_phase_split, 400, 10000),
+    'chemical_splits': (prop_chemical_splits, 400, 10000),
+    'material_balance': (prop_material_balance, 640, 15000),
 }
